@@ -793,6 +793,8 @@ impl World {
                 let mut calls: Vec<u64> = vec![];
                 let mut yielded: Vec<(Key, Val)> = vec![];
                 let (take, forget) = (*take, *forget);
+                let total_matching = self.refs[mid].as_ref().unwrap().keys().filter(|k| p.test(**k)).count();
+                let mut bad_hint: Option<String> = None;
                 let cr = windowed(|| {
                     let mut it = m.drain_filter(|k, v| {
                         tick(CLOSURE);
@@ -801,6 +803,12 @@ impl World {
                         p.test(k.k())
                     });
                     for _ in 0..take {
+                        // `size_hint` must bracket what is still to come
+                        let (lo, hi) = it.size_hint();
+                        let left = total_matching - yielded.len().min(total_matching);
+                        if (lo > left || hi.map_or(false, |h| h < left)) && bad_hint.is_none() {
+                            bad_hint = Some(format!("drain_filter: size_hint() = ({lo}, {hi:?}) but {left} elements are still to come"));
+                        }
                         match it.next() {
                             Some(x) => yielded.push(x),
                             None => break,
@@ -813,6 +821,9 @@ impl World {
                     }
                 });
                 let ok = take_cr!(cr).is_some();
+                if let Some(b) = bad_hint {
+                    self.fail(&["C08", "C09"], b);
+                }
                 ret = if yielded.is_empty() { "-".into() } else { yielded.iter().map(|(k, v)| ent_fmt(k, v)).collect::<Vec<_>>().join(",") };
                 let r = self.refs[mid].as_mut().unwrap();
                 if ok {
